@@ -514,9 +514,17 @@ package wire
 //@ func verifyAcyclic$1
 //@   requires 0 <= i && i < len(outputs) && 0 <= j && j < len(outputs) && outputs[i] != nil && outputs[j] != nil
 
+// C01: the zero value written on error paths is the Go zero value of the type's kind (Go spec,
+// "The zero value"): composite literal for arrays and structs, false / 0 / "" for the basic kinds by
+// their info bits (IsBoolean=1, IsInteger|IsFloat|IsComplex=26, IsString=32), nil for everything else.
 //@ func zeroValue
 //@   callsback qf
 //@   requires t != nil
+//@   ensures [C01] (t.Underlying() is *types.Array) || (t.Underlying() is *types.Struct) ==> result == tstr(t, qf) + "{}"
+//@   ensures [C01] (t.Underlying() is *types.Basic) && bitand(t.Underlying().(*types.Basic).Info(), 1) != 0 ==> result == "false"
+//@   ensures [C01] (t.Underlying() is *types.Basic) && bitand(t.Underlying().(*types.Basic).Info(), 1) == 0 && bitand(t.Underlying().(*types.Basic).Info(), 26) != 0 ==> result == "0"
+//@   ensures [C01] (t.Underlying() is *types.Basic) && bitand(t.Underlying().(*types.Basic).Info(), 1) == 0 && bitand(t.Underlying().(*types.Basic).Info(), 26) == 0 && bitand(t.Underlying().(*types.Basic).Info(), 32) != 0 ==> result == "\"\""
+//@   ensures [C01] (t.Underlying() is *types.Chan) || (t.Underlying() is *types.Interface) || (t.Underlying() is *types.Map) || (t.Underlying() is *types.Pointer) || (t.Underlying() is *types.Signature) || (t.Underlying() is *types.Slice) ==> result == "nil"
 //@ func injectorFuncSignature
 //@   ensures result.2 == nil ==> result.1.out != nil
 //@   ensures result.2 == nil ==> result.0 != nil && okSig(sig)
